@@ -959,6 +959,129 @@ PRIVKEY_CORPUS = [
 ]
 
 
+
+# ----------------------------------------------------------------------------- (g) a corrupt and an intact share on one server
+
+def gen_sameserver(rng):
+    S = rng.randrange(2, 6)
+    k = rng.randrange(2, 4)
+    n = rng.randrange(max(S + 1, k + 2), 11)
+    return {"family": "sameserver", "servers": S, "k": k, "n": n, "fmt": rng.choice("sm"), "sched": rng.randrange(1 << 30),
+            "policy": rng.choice(["fifo", "random", "lifo"]), "nver": rng.randrange(2, 4), "which": rng.randrange(64),
+            "bad_first": rng.random() < 0.5, "how": rng.choice(["repair", "check_and_repair", "repair"]),
+            "verify": rng.random() < 0.3}
+
+
+def run_sameserver_scenario(ctx, sc):
+    """Several shares per server.  Every share is rolled back to the previous version except one, which is then the only
+    share of the newest version; another share ON THE SAME SERVER gets a flipped byte in its signed prefix (invalid
+    signature).  Both orders of the server's listing (corrupt share before / after the newest one).
+    Monitor (statement): the file is not healthy; repair without force does not discard the newer unrecoverable version
+    -- it does not report success and changes no share file."""
+    import grid
+    from allmydata.mutable.publish import MutableData
+    from allmydata.mutable.repairer import MustForceRepairError
+    from allmydata.interfaces import SDMF_VERSION, MDMF_VERSION
+    from allmydata.monitor import Monitor
+    from allmydata.storage.mutable import MutableShareFile
+    case = {"kind": "scenario", "sc": sc}
+    k, n = sc["k"], sc["n"]
+
+    def raw(files):
+        res = {}
+        for (_i, _sh, path) in files:
+            with open(path, "rb") as f:
+                res[path] = f.read()
+        return res
+    try:
+        with grid.Runtime(seed=sc["sched"], policy=sc["policy"]) as rt:
+            g = mc.make_grid("c14s", rt, sc["servers"], 2, k, n)
+            try:
+                node = rt.wait(g.clients[0].create_mutable_file(
+                    MutableData(b"same-server scenario, version 0 " * 2), version=MDMF_VERSION if sc["fmt"] == "m" else SDMF_VERSION,
+                    unique_keypair=mc.keypair()))
+                si = node.get_storage_index()
+                for j in range(1, sc["nver"] - 1):
+                    rt.wait(node.overwrite(MutableData(b"same-server scenario, version %d " % j * 2)))
+                older = raw(g.share_files(si))
+                rt.wait(node.overwrite(MutableData(b"same-server scenario, NEWEST version " * 2)))
+                by_server = {}
+                for (i, sh, path) in g.share_files(si):
+                    by_server.setdefault(i, {})[sh] = path
+                multi = sorted(i for i in by_server if len(by_server[i]) >= 2)
+                if not multi:
+                    return
+                srv = multi[sc["which"] % len(multi)]
+                # the order in which this server hands out its shares is the order in which the client looks at them
+                listing = [sh for sh in g.storage[srv].slot_readv(si, [], [(0, 1)]).keys() if sh in by_server[srv]]
+                a, b = listing[0], listing[1 + (sc["which"] // 7) % (len(listing) - 1)]
+                (bad_sh, new_sh) = (a, b) if sc["bad_first"] else (b, a)
+                bad_path, new_path = by_server[srv][bad_sh], by_server[srv][new_sh]
+                for path, content in older.items():
+                    if path != new_path:
+                        with open(path, "wb") as f:
+                            f.write(content)
+                flip(bad_path, MutableShareFile(bad_path).DATA_OFFSET + 1 + 8 + 5)      # inside the root hash: bad signature
+                newest = mc.share_checkstring(new_path)
+                ctx.count("sameserver-%s" % ("corrupt-listed-first" if sc["bad_first"] else "corrupt-listed-second"))
+                rnode = g.clients[1].create_node_from_uri(node.get_uri())
+                before = raw(g.share_files(si))
+                outcome, success = None, False
+                try:
+                    if sc["how"] == "repair":
+                        cr = rt.wait(rnode.check(Monitor(), verify=sc["verify"]))
+                        ctx.count("sameserver-check-sees-%d-unrecoverable" % min(cr.get_version_counter_unrecoverable(), 2))
+                        if cr.is_healthy():
+                            ctx.violation("check says healthy although the grid holds two versions and a share with an invalid "
+                                          "signature", case, "healthy-false-positive-sameserver")
+                        rr = rt.wait(rnode.repair(cr, force=False))
+                        success = bool(rr.get_successful())
+                    else:
+                        crr = rt.wait(rnode.check_and_repair(Monitor(), verify=sc["verify"]))
+                        if crr.get_pre_repair_results().is_healthy():
+                            ctx.violation("check_and_repair's check says healthy although the grid holds two versions and a share "
+                                          "with an invalid signature", case, "healthy-false-positive-sameserver")
+                        success = bool(crr.get_repair_attempted() and crr.get_repair_successful())
+                    outcome = "ok" if success else "unsuccessful"
+                except grid.Stuck:
+                    raise
+                except MustForceRepairError:
+                    outcome = "MustForce"
+                except Exception as e:
+                    outcome = "error:" + mc.exc_name(e)
+                ctx.count("sameserver-%s:%s" % (sc["how"], outcome))
+                after = raw(g.share_files(si))
+                changed = sorted(path for path in set(before) | set(after) if before.get(path) != after.get(path))
+                ctx.case(("sameserver", sc["how"], sc["bad_first"], outcome, k, n, sc["servers"], len(changed)))
+                # the newest version (seq newest[1]) has one validly signed share: unrecoverable (k >= 2) and newer than the
+                # recoverable one -- a repair without force has to leave it alone
+                if success or changed:
+                    ctx.violation("%s without force %s and rewrote %d share files although a validly signed share of a newer, "
+                                  "unrecoverable version (seq %s, share %d on server %d) was on the grid%s" % (
+                                      sc["how"], "reported success" if success else "ended with " + str(outcome), len(changed),
+                                      newest and newest[1], new_sh, srv,
+                                      "; that share was overwritten" if after.get(new_path) != before.get(new_path) else ""),
+                                  case, "repair-overwrote-newer-unrecoverable")
+            finally:
+                g.close()
+    except grid.Stuck:
+        ctx.count("grid-stuck")
+    except Exception:
+        import traceback
+        ctx.disagree("same-server scenario could not be driven to the end", case, traceback.format_exc()[-800:], None)
+        ctx.count("grid-harness-exception")
+
+
+SAMESERVER_CORPUS = [
+    # C14-e: 5 servers, 3-of-10 (two shares per server); both listing orders, both formats, repair and check_and_repair
+    {"family": "sameserver", "servers": 5, "k": 3, "n": 10, "fmt": f, "sched": 50 + j, "policy": "fifo", "nver": 3,
+     "which": j, "bad_first": bf, "how": how, "verify": False}
+    for j, (f, bf, how) in enumerate([("s", True, "repair"), ("s", False, "repair"), ("m", True, "repair"),
+                                      ("m", True, "check_and_repair"), ("s", True, "check_and_repair"),
+                                      ("m", False, "check_and_repair")])
+]
+
+
 def truth_before_unrec(before, rec_before):
     return [(key, shs) for key, shs in before.items() if key not in rec_before]
 
@@ -1016,6 +1139,9 @@ def run(ctx):
         elif c["sc"].get("family") == "privkey":
             run_privkey_scenario(ctx, c["sc"])
             return
+        elif c["sc"].get("family") == "sameserver":
+            run_sameserver_scenario(ctx, c["sc"])
+            return
         else:
             sc = c["sc"]
             sc["damage"] = [tuple(d) for d in sc["damage"]]
@@ -1048,6 +1174,10 @@ def run(ctx):
             run_privkey_scenario(ctx, dict(sc))
         for _ in range(0 if corpus_only else ctx.budget(15, 300)):
             run_privkey_scenario(ctx, gen_privkey(ctx.rng))
+        for sc in SAMESERVER_CORPUS:
+            run_sameserver_scenario(ctx, dict(sc))
+        for _ in range(0 if corpus_only else ctx.budget(25, 400)):
+            run_sameserver_scenario(ctx, gen_sameserver(ctx.rng))
     model = ctx.model(acc["lines"])
     if model is not None:
         # need_repair is internal to the checker object on the grid path: compare the other fields
